@@ -1,0 +1,74 @@
+//go:build verif
+
+// Contracts for the wire helpers (property C01, reduced core: both ends of each pair are pinned
+// to the same keys and fields; that arrow-go's IPC writer and reader are inverse is not claimed).
+// Comment-only.
+
+package vgirpc
+
+// WriteRequest stamps the method and the request version — and the protocol version exactly when
+// one is given — on a batch with the parameters' own schema, columns and row count, writes that
+// one batch and closes the stream.
+//
+//@ func WriteRequest
+//@   property C01
+//@   at call arrow.NewMetadata assert [stamped] len(arg0) == len(arg1) && arg0[0] == MetaMethod && arg1[0] == method && arg0[1] == MetaRequestVersion && arg1[1] == ProtocolVersion &&
+//@       (protocolVersion == "" ==> len(arg0) == 2) && (protocolVersion != "" ==> len(arg0) == 3 && arg0[2] == MetaProtocolVersion && arg1[2] == protocolVersion)
+//@   at call array.NewRecordBatchWithMetadata assert [sameparams] arg3 == meta
+//@   at call (*ipc.Writer).Write assert [onebatch] arg1 == iface(batchWithMeta)
+
+// ReadRequest: what it returns is read off the first batch's metadata under the same keys, and
+// each refusal is the typed error the protocol names.
+//
+//@ pure func rpcErrType(err error, ty string) bool = typeof(err) == *RpcError && as(err, "*RpcError").Type == ty
+//@ func ReadRequest
+//@   property C01
+//@   at call (arrow.Metadata).GetValue#1 assert [methodkey] arg1 == MetaMethod && arg0 == meta
+//@   at call (arrow.Metadata).GetValue#2 assert [versionkey] arg1 == MetaRequestVersion && arg0 == meta
+//@   ensures [local_nomethod_ret5] result0 == nil && rpcErrType(result1, "ProtocolError") && !ok
+//@   ensures [local_badutf8_ret6] result0 == nil && rpcErrType(result1, "ProtocolError")
+//@   ensures [local_noversion_ret7] result0 == nil && rpcErrType(result1, "VersionError")
+//@   ensures [local_wrongversion_ret8] result0 == nil && rpcErrType(result1, "VersionError") && version != ProtocolVersion
+//@   ensures [local_rowcount_ret9] result0 == nil && rpcErrType(result1, "ProtocolError") && numRows(batch) != 1 && !isExternal && !isShmPointer
+//@   ensures [local_request_ret10] result1 == nil && result0 != nil && result0.Method == method && result0.Version == version && version == ProtocolVersion &&
+//@       result0.RequestID == requestID && result0.LogLevel == logLevel && result0.Batch == batch
+
+// ReadUnaryResult: a result is reported only for the first batch that has rows, and only when
+// its "result" column is a non-empty binary column, whose first value is returned (as a copy);
+// an exception batch, a log-only stream, a non-binary or missing column are all "not a result".
+//
+//@ func ReadUnaryResult
+//@   property C01
+//@   nopanic(index)
+//@   at call bytes.Clone assert [firstvalue] numRows(batch) > 0 && isBinary && len(indices) > 0
+//@   at call (*array.Binary).Value assert [row0] arg1 == 0
+//@   ensures [local_result_ret5] ok
+//@   ensures [local_noreader_ret2] !ok && result == nil
+//@   ensures [local_nocolumn_ret3] !ok && result == nil
+//@   ensures [local_notbinary_ret4] !ok && result == nil
+//@   ensures [local_notlog_ret6] !ok && result == nil
+//@   ensures [local_logonly_ret7] !ok && result == nil
+
+// WriteUnaryResult refuses any envelope that is not one field, and otherwise writes one one-row
+// batch holding exactly the given bytes.
+//
+//@ func WriteUnaryResult
+//@   property C01
+//@   ensures [refused] nFields(envelopeSchema) != 1 ==> result != nil
+//@   at call (*array.BinaryBuilder).Append assert [bytes] arg1 == resultBytes
+//@   at call array.NewRecordBatch assert [onerow] arg0 == envelopeSchema && arg2 == 1 && len(arg1) == 1 && arg1[0] == arr
+//@   at call (*ipc.Writer).Write assert [onebatch] arg1 == batch
+
+// scanStreamForTokens returns the first non-empty cursor token it meets, under the cursor key, and
+// with it the first non-empty call token met so far under the call key; FindProtocolVersion the
+// first non-empty value under the protocol-version key.
+//
+//@ func scanStreamForTokens
+//@   property C01
+//@   at call (arrow.Metadata).GetValue#1 assert [callkey] arg1 == MetaCallState && arg0 == md
+//@   at call (arrow.Metadata).GetValue#2 assert [statekey] arg1 == MetaStreamState && arg0 == md
+//@   ensures [local_found_ret3] result2 == nil && len(result0) == len(token) && token != "" && found
+//@ func FindProtocolVersion
+//@   property C01
+//@   at call (arrow.Metadata).GetValue assert [versionkey] arg1 == MetaProtocolVersion
+//@   ensures [local_found_ret3] result == version && version != "" && found
